@@ -136,6 +136,7 @@ def asOp (name : String) (p : Json) : P Op := do
     return .aggregate (← boolF p "window") a (← listF asNat p "rowGroup") (← natF p "ngroups") 0
   | "sortT" => return .sortT (← listF asNat p "perm")
   | "tabSet" => return .tabSet (← natF p "j") (← asUps (← field p "ups"))
+  | "opaque" => return .opaque
   | _ => .error s!"unknown op {name}"
 
 def ofNames : Names → Json
